@@ -263,7 +263,18 @@ def _check(case, switch):
     cfg_replay = BootstrapConfig(nb_samples=nb, sampling_method=r_method, stratified_sampling=r_strat,
                                  ratio=cfg.ratio, bootstrap_method=case["ci"], smoothing=smoothing)
     np.random.seed(case["seed"])
-    manual = [ref(o.bootstrap_sample(cfg_replay)) for _ in range(nb)]
+    def rebuilt(sample):
+        # a grouped sample is rebuilt from its public arrays, so that nothing the sample carries besides them
+        # (per-group caches) takes part in the reference
+        if not d["groups"]:
+            return sample
+        from score_analysis import GroupScores
+
+        return GroupScores(sample.pos.copy(), sample.neg.copy(), pos_groups=sample.pos_groups.copy(),
+                           neg_groups=sample.neg_groups.copy(), group_names=list(sample.groups),
+                           score_class=sample.score_class.value, equal_class=sample.equal_class.value)
+
+    manual = [ref(rebuilt(o.bootstrap_sample(cfg_replay))) for _ in range(nb)]
     require(rows_b.shape == (nb,) + theta_hat.shape, "bm:shape", f"{ctx}: builtin {rows_b.shape}")
     for j in range(nb):
         require(_eq(rows_b[j], manual[j]), "bm:seeded-replay",
